@@ -316,6 +316,22 @@ func retryDeadlineWaits(h *hctx, round int) (hangs int) {
 				h.line("MONITOR C18 waitDuration(ctx, %v) with a live WithTimeout(1h) context returned after %v", d, el)
 			}
 		})
+		// a context with a far deadline (1 h, 2 h: beyond the end of the wait or not) that is cancelled EXPLICITLY during the wait cuts it
+		for _, far := range []time.Duration{time.Hour, 3 * time.Hour} {
+			far := far
+			after := time.Duration(3+h.rng.Intn(15)) * time.Millisecond
+			run(func() {
+				ctx, cancel := context.WithTimeout(context.Background(), far)
+				defer cancel()
+				go func() { time.Sleep(after); cancel() }()
+				el, ok := retryTimed(h, "waitDuration(2h)", 3*time.Second+after, func() { waitDuration(ctx, 2*time.Hour) })
+				h.count("wait_cut_by_explicit_cancel_of_deadline_ctx", 1)
+				if !ok {
+					nh.Add(1)
+					h.line("MONITOR C18 waitDuration(ctx, 2h) was not cut short when its WithTimeout(%v) context was cancelled explicitly after %v (%v)", far, after, el)
+				}
+			})
+		}
 	}
 	wg.Wait()
 	return int(nh.Load())
